@@ -118,6 +118,9 @@ pub struct ServerProc {
     readers: Vec<std::thread::JoinHandle<()>>,
     _leases: Vec<PortLease>,
     pub started: Instant,
+    /// probe sockets stay open as long as the server lives: late replies to start-up probes must not reach a client
+    /// socket that happens to get the same (recycled) ephemeral port
+    keep: Vec<UdpSocket>,
 }
 
 fn spawn_reader<R: Read + Send + 'static>(mut r: R, sink: Arc<Mutex<Vec<u8>>>) -> std::thread::JoinHandle<()> {
@@ -215,7 +218,7 @@ impl ServerProc {
         let out = Arc::new(Mutex::new(Vec::new()));
         let readers = vec![spawn_reader(child.stdout.take().unwrap(), out.clone()), spawn_reader(child.stderr.take().unwrap(), out.clone())];
         let pk = if cfg.seed_hex.len() == 64 && cfg.seed_hex.bytes().all(|c| c.is_ascii_hexdigit()) { RefKey::from_seed(&crate::refcodec::unhex(&cfg.seed_hex)).public() } else { vec![] };
-        Ok(ServerProc { child, port, hc_port: hc, dir, pk, out, readers, _leases: leases, started: Instant::now() })
+        Ok(ServerProc { child, port, hc_port: hc, dir, pk, out, readers, _leases: leases, started: Instant::now(), keep: vec![] })
     }
 
     pub fn addr(&self) -> std::net::SocketAddr {
@@ -258,6 +261,7 @@ impl ServerProc {
             if let Ok((n, _)) = sock.recv_from(&mut buf) {
                 // with fault injection on, any datagram proves a worker is serving
                 if n > 0 {
+                    self.keep.push(sock);
                     return Ok(());
                 }
             }
@@ -287,6 +291,7 @@ impl ServerProc {
             }
             std::thread::sleep(Duration::from_millis(1));
             if matches!(sock.recv_from(&mut buf), Ok((n, _)) if n > 0) {
+                self.keep.push(sock);
                 return Ok(());
             }
             if Instant::now() > end {
